@@ -70,6 +70,7 @@ type getter struct {
 	// scripts (all optional)
 	HeadFn             func(call int, trusted H) (H, error) // overrides Head
 	HeadDelay          time.Duration
+	HeadBlock          func() bool                                    // true: the request hangs until its context ends
 	ByHeightFn         func(call int, height uint64) (H, error, bool) // handled=false => default
 	RangeFn            func(call int, from H, to uint64) ([]H, error, bool)
 	RangeDelay         func(call int) time.Duration
@@ -119,6 +120,13 @@ func (g *getter) Head(ctx context.Context, opts ...header.HeadOption[H]) (H, err
 			g.mu.Unlock()
 			return nil, ctx.Err()
 		}
+	}
+	if hb := g.HeadBlock; hb != nil && hb() {
+		<-ctx.Done()
+		g.mu.Lock()
+		g.log(getCall{Kind: "head", Trusted: hOf(p.TrustedHead), Err: true})
+		g.mu.Unlock()
+		return nil, ctx.Err()
 	}
 	var h H
 	var err error
